@@ -7,7 +7,10 @@
 // increments" exit status). The oracle is an independent reference computed
 // in reference.go (os.ReadDir walking, own newline splitting, compress/gzip
 // only to produce the expected decoded text). helpers.DetermineErrorState is
-// also enumerated directly over {0,1,2}^3.
+// also enumerated directly over {0,1,2}^3. size.go adds the SIZE families
+// (file sizes up to 512 KiB, a gzip file cut at every byte / with every
+// header and trailer bit flipped, up to 130 path arguments, 40 nested
+// directories, 1025 directory entries).
 package main
 
 import (
@@ -30,6 +33,10 @@ type Case struct {
 	Form    string   `json:"form"`
 	Gunzip  bool     `json:"z"`
 	Readers int      `json:"readers"`
+	// size families only (size.go): family, input shape and the size n
+	Family string `json:"family,omitempty"`
+	Shape  string `json:"shape,omitempty"`
+	N      int    `json:"n,omitempty"`
 	// exitstate only
 	ReadErrors  int  `json:"read_errors,omitempty"`
 	Matched     int  `json:"matched,omitempty"`
@@ -147,6 +154,7 @@ func worker(w *runner.W) {
 
 	maxEntries := 3
 	var caseNo int64
+	onlySize := w.Param("only", "") == "size" // debugging aid: -p only=size runs the size families alone
 
 	// direct enumeration of DetermineErrorState over {0,1,2}^3 (+ nil aggregator)
 	for r := 0; r <= 2; r++ {
@@ -170,6 +178,9 @@ func worker(w *runner.W) {
 
 	stop := false
 	enumTrees(0, maxEntries, func(kinds []string) bool {
+		if onlySize {
+			return false
+		}
 		for _, form := range allForms {
 			if !formApplies(form, kinds) {
 				continue
@@ -207,7 +218,31 @@ func worker(w *runner.W) {
 		}
 		return true
 	})
-	if w.Quick() || stop {
+	if stop {
+		return
+	}
+	// SIZE families (size.go)
+	onlyFam := w.Param("fam", "") // debugging aid: -p fam=<family>
+	for _, c := range sizedCases(w.Quick()) {
+		if onlyFam != "" && c.Family != onlyFam {
+			continue
+		}
+		caseNo++
+		if !w.Owns(caseNo) {
+			continue
+		}
+		if w.Expired() {
+			return
+		}
+		if e.hangs >= 3 {
+			w.Cap("enumeration stopped after 3 hanging processes in one worker")
+			return
+		}
+		c := c
+		w.SetCase(func() any { return c })
+		e.runSized(c)
+	}
+	if w.Quick() || onlySize {
 		return
 	}
 	// thorough: additionally every tree with 4 entries, for the filter command
@@ -299,15 +334,20 @@ func checkExitState(w *runner.W, c Case) {
 
 // runCase executes one case against the binary and applies the oracle.
 func (e *env) runCase(dir string, t *tree, c Case) {
+	e.judge(dir, t.describe(), c, expect(t, c))
+}
+
+// judge runs the command line of the case and applies the oracle to the
+// expectation exp.
+func (e *env) judge(dir, treeDesc string, c Case, exp *expectation) {
 	w := e.w
-	exp := expect(t, c)
 	args := buildArgs(c, exp)
 	c.Cmdline = "rare " + shellJoin(args) + " < " + exp.stdinName
 	res := runRare(e.bin, dir, e.home, args, filepath.Join(dir, exp.stdinName), 2)
 	w.Add("process_runs", 1)
 
 	viol := func(sig, msg string) {
-		detail := fmt.Sprintf("%s\ncmd (cwd holds tree t/): %s\ntree: %s\nexit=%d\nstdout=%q\nstderr=%q", msg, c.Cmdline, t.describe(), res.exit, clip(res.stdout, 600), clip(res.stderr, 600))
+		detail := fmt.Sprintf("%s\ncmd (cwd holds tree t/): %s\ntree: %s\nexit=%d\nstdout=%q\nstderr=%q", msg, clip(c.Cmdline, 400), treeDesc, res.exit, clip(res.stdout, 600), clip(res.stderr, 600))
 		w.Violation(sig, detail, c)
 	}
 	pre := "C06/" + c.Variant + "/"
@@ -374,6 +414,8 @@ func (e *env) runCase(dir string, t *tree, c Case) {
 		obsKey = checkHisto(dir, c, exp, res, report)
 	}
 
+	w.Add("either_reading_allowed_read_as_non_gzip", int64(exp.readAsPlain))
+	w.Add("either_reading_allowed_read_as_failing_gzip", int64(exp.readAsGzip))
 	// exit status
 	wantExit, reason := exp.exitStatus()
 	if !exp.exitAmbiguous {
@@ -467,6 +509,30 @@ func checkFilter(c Case, exp *expectation, res runResult, report func(sig, msg s
 			continue
 		}
 		got[parts[0]] = append(got[parts[0]], lt{n, parts[2]})
+	}
+	// an input the statement lets be classified either way (see input.alt):
+	// when exactly the bytes of the other reading were delivered, that reading
+	// is the one the rest of the oracle (content, exit status) is held to
+	for i, in := range exp.inputs {
+		if in.alt == nil {
+			continue
+		}
+		g := got[in.src]
+		same := len(g) == len(in.alt.lines)
+		seen := map[int]bool{}
+		for _, x := range g {
+			if x.line < 1 || x.line > len(in.alt.lines) || seen[x.line] || in.alt.lines[x.line-1] != x.text {
+				same = false
+				break
+			}
+			seen[x.line] = true
+		}
+		if same && !(len(in.alt.lines) == 0 && in.fails && res.exit == 2) {
+			exp.inputs[i] = in.alt
+			exp.readAsPlain++
+		} else {
+			exp.readAsGzip++
+		}
 	}
 	// every named input is read exactly once per mention
 	bySrc := map[string][]*input{}
@@ -619,6 +685,10 @@ func replay(w *runner.W, raw json.RawMessage) {
 	}
 	e := newEnv(w)
 	defer e.close()
+	if c.Family != "" {
+		e.runSized(c)
+		return
+	}
 	dir, t := e.workdir(c.Kinds)
 	e.runCase(dir, t, c)
 }
@@ -632,6 +702,7 @@ func main() {
 			return "real rare binary, one process per case: every directory tree t/ with 0..3 entries (ordered, named e0..e2) over the kinds {" + strings.Join(allKinds, ", ") +
 				"} (1+11+121+1331 trees; a subdir entry holds in.log and sub/deep.log) x argument forms {" + strings.Join(allForms, ", ") +
 				"} (paths: every entry by name; glob: t/*; recursive: -R t; recursive-paths: -R with every entry by name; twice: every entry named twice; dir-as-file: t itself then every entry; dash/none: standard input carrying the bytes of the single entry, trees of <=1 file entries only; dash-first: `-` followed by every entry, filter only; literal-name-with-pattern-characters: every entry by name plus an existing file t/x[1].log named literally, which as a pattern does not match itself; glob-by-extension: `t/*.log t/e?.gz` for trees holding at least one entry of each extension - these two forms with trees of up to 2 entries in the quick tier) x -z {off,on} x --readers=--workers {1,2} x command {filter -e '{src}:{line}:{0}' (every line printed), histogram -m '" + histoRegex + "' -e {1} -e {2} --csv}; " +
+				sizeRule(tier) +
 				map[string]string{"quick": "", "thorough": "thorough adds every tree with 4 entries (14641) x forms {paths, glob, recursive} x filter x -z x --readers {1,2}; "}[tier] +
 				"standard input always comes from a file (a sentinel line when it must not be read). Oracle: multiset of source:line:text (filter) / exported counts (histogram) against an independent reference, exit status, error mention on stderr. Plus helpers.DetermineErrorState over {0,1,2}^3 (and a nil aggregator). non-trivial = at least one named input exists in the reference (a case whose inputs are all absent only checks the exit status)"
 		},
@@ -641,6 +712,7 @@ func main() {
 				"-z together with standard input: the up-front refusal (exit 2, no output) is accepted as well as reading the bytes undecoded; the statement is silent",
 				"a glob without any expansion (t/* on an empty tree): exit 1 or 2 accepted, the statement is silent",
 				"a truncated or corrupt gzip stream under -z: any prefix of the decodable lines is accepted (the last one possibly cut short), but the failure must be reported and the exit status must be 2",
+				"size families, -z: a file whose gzip header is damaged (cut inside the header, a flipped header bit that makes it undecodable) and a text file that merely starts with the gzip magic may be taken either for gzip content (then it fails while being read: error reported, exit status 2, any prefix of what a decoder delivers) or for a non-gzip file (then every byte from the first to the last is delivered and the exit status is the usual one); damage behind an intact header (body, trailer, second member) is gzip content that fails while being read; a file a gzip decoder decodes without error (e.g. a flipped bit in the modification time or the name) is gzip content and must be delivered decompressed",
 				"`-` followed by path arguments: reading standard input and every path, or refusing the command line (exit 2, nothing on stdout, a message on stderr) are both accepted",
 				"file names contain no glob metacharacters and no colon",
 			}
